@@ -481,10 +481,15 @@ func (a *Authenticator) authenticateCHAP(username string, response []byte) *Auth
 		// RADIUS needs the challenge and response for CHAP
 		ctx, cancel := context.WithTimeout(context.Background(), a.config.Timeout)
 		defer cancel()
-		// TODO: CHAP-Password attribute (RFC 2865 section 5.3) needs to be implemented
-		// for full RADIUS CHAP support. Currently this sends username only.
+		// The server can only verify the exchange if it sees it: CHAP-Password
+		// (identifier + response) and CHAP-Challenge (RFC 2865 sections 5.3, 5.40).
+		chapResponse := make([]byte, len(response))
+		copy(chapResponse, response)
 		authResp, err := a.radiusClient.Authenticate(ctx, &radius.AuthRequest{
-			Username: username,
+			Username:      username,
+			CHAPID:        a.chapID,
+			CHAPResponse:  chapResponse,
+			CHAPChallenge: a.challenge,
 		})
 
 		if err != nil {
